@@ -6,6 +6,10 @@
 //     terminates a request (responseError / TerminateWithError, with the error constructor and the reason),
 //     every return, the TryAcquire test, the deferred Release, Pop, and the call that forwards;
 //   - the resource name exempted from Retry-After in the rate-limited branch.
+//   - the statement skeleton of the gateway's own WithRequestInfo and the arguments of its call in proxy.go;
+//   - what dispatcher.ServeHTTP assigns to location.RawPath, and the byte table of escapeInvalidPathBytes;
+//   - the transport a forwarded request is sent with: the fields of the http.Transport literal of newTransport
+//     (pkg/clusters/endpoint.go) with their durations, the dialers, and the durations of newRESTConfig (pkg/clusters/util.go).
 //
 // It FAILS when the source no longer has the shape it reads.
 package main
